@@ -112,8 +112,12 @@ Record obs := Obs {
 Definition get_obs : dec obs :=
   r <- get_z ;; c <- get_opt get_seen ;; pr <- get_z ;; ps <- get_opt get_seen ;;
   l <- get_list get_logev ;; st <- get_storage ;; ret (Obs r c (pr, ps) l st).
-Definition step := (hop * oracle * obs)%type.
-Definition get_step : dec step := h <- get_hop ;; o <- get_oracle ;; b <- get_obs ;; ret (h, o, b).
+(** a step: operation, issuer answers, the Storage-call indices (within this step) that fail, observation *)
+Definition step := (hop * oracle * list nat * obs)%type.
+Definition get_step : dec step :=
+  h <- get_hop ;; o <- get_oracle ;; f <- get_list get_nat ;; b <- get_obs ;; ret (h, o, f, b).
+Definition step_plan (f : list nat) : plan :=
+  {| p_fail := fun n => existsb (Nat.eqb n) f; p_crash := None |}.
 
 (** * the model's observation of one step *)
 Definition seen_of (mc : mcert) : seen := (c_ser (m_c mc), m_k mc, [c_sub (m_c mc)]).
@@ -141,17 +145,17 @@ Definition obs_eqb (m o : obs) : bool :=
 Fixpoint replay6 (cfg : config) (sp : subject) (w : world) (steps : list step) : bool :=
   match steps with
   | [] => true
-  | (h, orc, o) :: r =>
-      let '(m, w') := model_step no_faults cfg sp w h orc in
-      obs_eqb m o && replay6 cfg sp w' r
+  | (h, orc, f, o) :: r =>
+      let '(m, w') := model_step (step_plan f) cfg sp w h orc in
+      obs_eqb m o && replay6 cfg sp (break_lock w') r     (* a failed Unlock: the Locker's staleness rule *)
   end.
 (** first disagreeing step and the model's view of it (for [explain]) *)
 Fixpoint first_diff (cfg : config) (sp : subject) (w : world) (steps : list step) (n : Z) : list Z :=
   match steps with
   | [] => [-1]
-  | (h, orc, o) :: r =>
-      let '(m, w') := model_step no_faults cfg sp w h orc in
-      if obs_eqb m o then first_diff cfg sp w' r (n + 1)
+  | (h, orc, f, o) :: r =>
+      let '(m, w') := model_step (step_plan f) cfg sp w h orc in
+      if obs_eqb m o then first_diff cfg sp (break_lock w') r (n + 1)
       else n :: ob_res m :: fst (ob_probe m) :: Z.of_nat (length (ob_st m)) :: Z.of_nat (length (ob_log m)) ::
            concat (map logev_enc (ob_log m))
   end.
@@ -185,7 +189,7 @@ Definition revoked_state (env : list (N * bool)) (b : bundle) : option bool :=
 
 (** the clauses that speak about states (storage before / after, what was cached, what a reload
     returns) ... *)
-Definition spec_state (cfg : config) (sp : subject) (env : list (N * bool)) (st0 : storage) (h : hop) (o : obs) : bool :=
+Definition spec_success (cfg : config) (sp : subject) (h : hop) (o : obs) : bool :=
   let st1 := ob_st o in
   let ok := (ob_res o =? 0) && is_op h in
   (* success_bundle_complete: some issuer directory holds key, chain, metadata; key matches leaf;
@@ -201,7 +205,9 @@ Definition spec_state (cfg : config) (sp : subject) (env : list (N * bool)) (st0
                  | HManage => match newest_bundle st1 cfg (s_save sp), ob_cached o with
                               | Some b, Some sn => seen_eqb sn (seen_of_bundle b) && nlist_eqb (snd sn) [s_id sp]
                               | _, _ => false end
-                 | _ => true end)
+                 | _ => true end).
+Definition spec_state (cfg : config) (sp : subject) (env : list (N * bool)) (st0 : storage) (h : hop) (o : obs) : bool :=
+  spec_success cfg sp h o
   (* compromised_key_never_reused: manage succeeded on a certificate revoked for key compromise
      => what is served afterwards does not use that key *)
   && (match h with
@@ -218,14 +224,17 @@ Definition spec_state (cfg : config) (sp : subject) (env : list (N * bool)) (st0
       | _ => true
       end).
 (** ... and the clauses that speak about the issuer calls and key generations in the log *)
-Definition spec_log (cfg : config) (sp : subject) (env : list (N * bool)) (st0 : storage) (h : hop) (o : obs) : bool :=
+Definition spec_issued (cfg : config) (sp : subject) (st0 : storage) (h : hop) (o : obs) : bool :=
   let st1 := ob_st o in
   let iss := issued_ok (ob_log o) in
   let ok := (ob_res o =? 0) && is_op h in
   (* what the issuer just returned is stored, with the key that was in the CSR *)
   (negb ok || forallb (fun ik => match bundle_at st1 (fst ik) (s_save sp) with
                                     | Some ((_, k, c, _) as b) => good_bundle sp b && N.eqb k (snd ik) && negb (cert_in st0 (c_ser c))
-                                    | None => false end) iss)
+                                    | None => false end) iss).
+Definition spec_log (cfg : config) (sp : subject) (env : list (N * bool)) (st0 : storage) (h : hop) (o : obs) : bool :=
+  let iss := issued_ok (ob_log o) in
+  spec_issued cfg sp st0 h o
   (* fresh_key_unless_reuse / reuse_keeps_key *)
   && forallb (fun ik =>
        let k := snd ik in
@@ -244,6 +253,11 @@ Definition spec_log (cfg : config) (sp : subject) (env : list (N * bool)) (st0 :
                 end
             | _ => true
             end) iss.
+(** a step under injected storage errors: the property's first clause still binds - a REPORTED SUCCESS
+    leaves a complete, matching, reloadable bundle, what was issued is stored, and the cached certificate
+    names the identifier (a reported error is fine) *)
+Definition spec_faulted (cfg : config) (sp : subject) (st0 : storage) (h : hop) (o : obs) : bool :=
+  spec_success cfg sp h o && spec_issued cfg sp st0 h o.
 Definition spec_step (cfg : config) (sp : subject) (env : list (N * bool)) (st0 : storage) (h : hop) (o : obs) : bool :=
   spec_state cfg sp env st0 h o && spec_log cfg sp env st0 h o.
 
@@ -268,9 +282,13 @@ Definition spec_recent (cfg : config) (sp : subject) (h : hop) (o : obs) : bool 
 Fixpoint spec6 (cfg : config) (sp : subject) (env : list (N * bool)) (st0 : storage) (fwd : bool) (steps : list step) : bool :=
   match steps with
   | [] => true
-  | (h, orc, o) :: r =>
-      let fwd' := fwd && (negb (is_op h) || forwardb orc st0) in
-      spec_step cfg sp env st0 h o && (negb fwd' || spec_recent cfg sp h o) &&
+  | (h, orc, f, o) :: r =>
+      (* the recency clause is claimed for fault-free forward histories *)
+      let fwd' := fwd && (negb (is_op h) || forwardb orc st0) && (match f with [] => true | _ => false end) in
+      (match f with
+       | [] => spec_step cfg sp env st0 h o
+       | _ => spec_faulted cfg sp st0 h o
+       end) && (negb fwd' || spec_recent cfg sp h o) &&
       spec6 cfg sp (env_after sp st0 h env) (ob_st o) fwd' r
   end.
 
